@@ -6,11 +6,11 @@ use crate::run::*;
 use crate::src::Src;
 use serde_json::json;
 
-const NAMES: &[&str] = &["a", "b", "c", "x1", "_u", "$d", "π", "ä", "名", "𝒜"];
+pub const NAMES: &[&str] = &["a", "b", "c", "x1", "_u", "$d", "π", "ä", "名", "𝒜"];
 
 /// Generates a node in which a name may repeat only across alternatives of one disjunction.
 /// `avail` = names not yet used on the current alternative path.
-fn gen_dup(src: &mut Src, cfg: &GenCfg, avail: &mut Vec<&'static str>, depth: u32) -> Node {
+pub fn gen_dup(src: &mut Src, cfg: &GenCfg, avail: &mut Vec<&'static str>, depth: u32) -> Node {
     let deep = depth >= 4;
     match src.weighted(&[4, if deep { 0 } else { 5 }, if deep { 0 } else { 4 }, 4, 3, if deep { 0 } else { 2 }, if deep { 0 } else { 2 }, 1]) {
         0 => Node::Lit(gen_char(src, cfg)),
